@@ -26,9 +26,14 @@ PxSet == {<<1, 1>>, <<2, 1>>, <<27, 20>>}
 Part(x, s, e, t, sid, c) == [x |-> x, s |-> s, e |-> e, tomo |-> t, sid |-> sid, cls |-> c]
 SecondPart == Part(<<24, 8, 16>>, <<4, -4, 1>>, <<1, 1, 2>>, 17, 1308, 3)
 
-ExportCase(v, f, x, s, e, sid, two) ==
+\* shape 0: one particle; 1: two particles; 2: two particles, the first one removed by its class before the export (the
+\* survivor keeps row label 1); 3: two particles swapped before the export
+ExportCase(v, f, x, s, e, sid, shape) ==
     [mode |-> "export", v |-> v, px |-> <<27, 20>>, fmt |-> f,
-     parts |-> IF two THEN <<Part(x, s, e, 3, sid, 2), SecondPart>> ELSE <<Part(x, s, e, 3, sid, 2)>>]
+     parts |-> IF shape = 0 THEN <<Part(x, s, e, 3, sid, 2)>> ELSE <<Part(x, s, e, 3, sid, 2), SecondPart>>,
+     hist |-> CASE shape \in {0, 1} -> <<>>
+                [] shape = 2 -> <<[op |-> "remove", cls |-> 2, idx |-> <<>>]>>
+                [] shape = 3 -> <<[op |-> "select", cls |-> 0, idx |-> <<2, 1>>]>>]
 
 \* an origin component that encodes the shift -k (lattice units) in the unit of the version
 OriginFor(k, v, px) == IF v >= 31 THEN <<k * px[1], U * px[2]>> ELSE <<k, U>>
@@ -47,8 +52,8 @@ Start == rel = <<>> /\ back = <<>> /\ pc = "start" /\ op = "init" /\ cid = 0
 
 \* (formats only make sense with their version family)
 MCInit(quick) ==
-    /\ \/ \E v \in {30, 31, 40} : \E f \in Formats(v, quick) : \E x \in XSet, s \in SSet, e \in Triples, sid \in {7, 12}, two \in BOOLEAN :
-              cs = ExportCase(v, f, x, s, e, sid, two)
+    /\ \/ \E v \in {30, 31, 40} : \E f \in Formats(v, quick) : \E x \in XSet, s \in SSet, e \in Triples, sid \in {7, 12}, shape \in 0..3 :
+              cs = ExportCase(v, f, x, s, e, sid, shape)
        \/ \E v \in {30, 31, 40}, px \in PxSet, ks \in KSet, e \in Triples, sid \in {7, 12}, sub \in {1, 2}, two \in BOOLEAN :
               cs = ImportCase(v, px, Plain, ks, e, sid, sub, two)
        \/ \E v \in {30, 31, 40} : \E f \in Formats(v, quick) \ {Plain} : \E px \in PxSet, e \in Triples, sid \in {7, 12}, sub \in {1, 2} :
